@@ -390,6 +390,16 @@ bool Importer::ImporterImpl::fetchModel(const ImportSourcePtr &importSource, con
         mLibrary.insert(std::make_pair(url, model));
     } else {
         model = mLibrary[url];
+        if (model == nullptr) {
+            // The library can hold a null model (see Importer::addModel() and
+            // Importer::replaceModel()), which cannot be used to resolve anything.
+            auto issue = Issue::IssueImpl::create();
+            issue->mPimpl->setDescription("The attempt to resolve imports with the model at '" + url + "' failed: the model in the importer's library is null.");
+            issue->mPimpl->mItem->mPimpl->setImportSource(importSource);
+            issue->mPimpl->setReferenceRule(Issue::ReferenceRule::IMPORTER_NULL_MODEL);
+            addIssue(issue);
+            return false;
+        }
     }
     importSource->setModel(model);
     return true;
